@@ -31,7 +31,7 @@ var coalesceGaps = []int64{0, 0, 10, 50, 90, 110, 150, 400, 900, 1000, 1100, 250
 // steps: {op:"ev", s:kind, i:member} ; {op:"gap", d:ms}
 func genC17(seed uint64, tier string) *Case {
 	g := NewRng(seed)
-	c := &Case{P: map[string]int64{"names": int64(1 + g.Intn(4))}}
+	c := &Case{P: map[string]int64{"names": int64(1 + g.Intn(4)), "outcap": int64(g.Pick(4096, 4096, 1, 2))}}
 	n := 5 + g.Intn(40)
 	if tier == "thorough" {
 		n = 5 + g.Intn(120)
@@ -63,7 +63,16 @@ func memberEventType(kind string) serf.EventType {
 }
 
 func execC17(r *Run) {
-	out := make(chan serf.Event, 4096)
+	// the application's channel: roomy, or so small that a flush finds it full (the
+	// application reads only when the simulator drains)
+	outcap := int(r.C.P["outcap"])
+	if outcap <= 0 {
+		outcap = 4096
+	}
+	if outcap < 4096 {
+		r.Fault("application-channel-full")
+	}
+	out := make(chan serf.Event, outcap)
 	shutdown := make(chan struct{})
 	defer close(shutdown)
 	in := serf.VerifMemberCoalescedCh(out, shutdown, coalesceQuantum, coalesceQuiescent)
@@ -78,12 +87,21 @@ func execC17(r *Run) {
 	drain := func() []serf.Event {
 		var evs []serf.Event
 		for {
-			select {
-			case e := <-out:
-				evs = append(evs, e)
-			default:
+			n := 0
+		inner:
+			for {
+				select {
+				case e := <-out:
+					evs = append(evs, e)
+					n++
+				default:
+					break inner
+				}
+			}
+			if n == 0 {
 				return evs
 			}
+			synctest.Wait() // a sender blocked on the full application channel moves on
 		}
 	}
 	checkFlush := func(evs []serf.Event, after string) {
@@ -183,7 +201,7 @@ func execC17(r *Run) {
 // steps: {op:"uev", s:name, u:ltime, f:coalescable} ; {op:"other", s:"member"|"query"} ; {op:"gap", d:ms}
 func genC18(seed uint64, tier string) *Case {
 	g := NewRng(seed)
-	c := &Case{P: map[string]int64{}}
+	c := &Case{P: map[string]int64{"outcap": int64(g.Pick(4096, 4096, 1, 2))}}
 	n := 5 + g.Intn(40)
 	if tier == "thorough" {
 		n = 5 + g.Intn(120)
@@ -209,7 +227,16 @@ func genC18(seed uint64, tier string) *Case {
 }
 
 func execC18(r *Run) {
-	out := make(chan serf.Event, 4096)
+	// the application's channel: roomy, or so small that a flush finds it full (the
+	// application reads only when the simulator drains)
+	outcap := int(r.C.P["outcap"])
+	if outcap <= 0 {
+		outcap = 4096
+	}
+	if outcap < 4096 {
+		r.Fault("application-channel-full")
+	}
+	out := make(chan serf.Event, outcap)
 	shutdown := make(chan struct{})
 	defer close(shutdown)
 	in := serf.VerifUserCoalescedCh(out, shutdown, coalesceQuantum, coalesceQuiescent)
@@ -222,12 +249,21 @@ func execC18(r *Run) {
 	drain := func() []serf.Event {
 		var evs []serf.Event
 		for {
-			select {
-			case e := <-out:
-				evs = append(evs, e)
-			default:
+			n := 0
+		inner:
+			for {
+				select {
+				case e := <-out:
+					evs = append(evs, e)
+					n++
+				default:
+					break inner
+				}
+			}
+			if n == 0 {
 				return evs
 			}
+			synctest.Wait() // a sender blocked on the full application channel moves on
 		}
 	}
 	for idx, s := range r.C.Steps {
